@@ -104,7 +104,7 @@ def run_cfg(ctx, fx):
             # given this function's own child parameter
             dels = [t for _, t in b.normal_calls() if (t.get("resolved") or t.get("callee")) in WRITERS and (t.get("resolved") or t.get("callee")) != w]
             def m_arg(t_):
-                cal = fx.fn(t_.get("resolved") or t_.get("callee"))
+                cal = fx.callee_fn(t_)
                 gen = (cal or {}).get("generics") or []
                 ga = t_.get("gargs") or []
                 return ga[gen.index("M")] if "M" in gen and gen.index("M") < len(ga) else None
